@@ -9,6 +9,8 @@
 import HtpModel.Lemmas.Parse
 import HtpModel.Lemmas.ReqLine
 import HtpModel.Pinned.Eq
+import HtpModel.Lemmas.CFunsClasses
+import HtpModel.Lemmas.CFunsAsBody
 
 namespace Htp.C02
 open Htp Htp.Gen Htp.Parse
@@ -246,5 +248,20 @@ theorem C02_method_table :
 /-- **C02 (class tables, base64, methods and constants are the reviewed ones)**: snapshot pins of the regenerated definitions the line parsers use -/
 theorem C02_class_tables_pinned : Htp.Pinned.ClassTablesPinned := Htp.Pinned.classTables_pinned
 theorem C02_constants_pinned : Htp.Pinned.ConstantsPinned := Htp.Pinned.constants_pinned
+
+/-- **C02 (character classes and the status-line test, the code itself)**: the `switch` statements of htp_is_space and htp_is_separator and
+    htp_is_token, translated from the current source by extract/ctrans.py (Gen/CFuns.lean), return on every byte what the class tables say -
+    tables that are obtained by RUNNING the compiled functions and pinned by `C02_char_classes`: two independent routes from the code to the
+    model that meet. htp_treat_response_line_as_body (white space / NUL skipped, then "http" in any case, the four reads guarded by the
+    length test) returns the model's decision for every line below 2^63 bytes, within len + 1 loop turns and with every read inside the line. -/
+theorem C02_translated_classes (fuel : Nat) (c : UInt8) :
+    (Htp.Gen.C.htp_is_space fuel c.toNat).map (·.1) = some (Htp.CSem.b2i (isSpace c)) ∧
+    (Htp.Gen.C.htp_is_separator fuel c.toNat).map (·.1) = some (Htp.CSem.b2i (isSeparator c)) ∧
+    (Htp.Gen.C.htp_is_token fuel c.toNat).map (·.1) = some (Htp.CSem.b2i (isToken c)) :=
+  ⟨Htp.CFuns.htp_is_space_eq fuel c, Htp.CFuns.htp_is_separator_eq fuel c, Htp.CFuns.htp_is_token_eq fuel c⟩
+
+theorem C02_translated_line_as_body (d : Bytes) (h1 : d.length < 9223372036854775808) (fuel : Nat) (hf : d.length < fuel) :
+    (Htp.Gen.C.htp_treat_response_line_as_body fuel d d.length).map (·.1) = some (Htp.CSem.b2i (treatResponseLineAsBody d)) :=
+  Htp.CFuns.htp_treat_response_line_as_body_eq d h1 fuel hf
 
 end Htp.C02
